@@ -534,6 +534,11 @@ class Gen(object):
             # longer than the usual I/O buffer sizes (8 KiB is about 900 samples, 64 KiB about 7 000)
             n = rng.choice([rng.randint(800, 1000), rng.randint(6500, 7500), rng.randint(13000, 14500), rng.randint(2000, 20000),
                             rng.randint(9990, 10010)])
+            if rng.random() < 0.3:
+                # exact multiples of the block sizes people write loops around (powers of two, round decimal numbers)
+                base = rng.choice([500, 1000, 1024, 2000, 2048, 2500, 3000, 4000, 4096, 5000, 6000, 8000, 8192, 10000, 12000,
+                                   15000, 16384, 20000, 25000, 30000, 32768, 50000])
+                n = min(base * rng.choice([1, 1, 2, 3]), 100000)
             if rng.random() < 0.012:
                 n = rng.randint(100001, 104000)      # beyond the next power of ten as well (costs about a second per round trip)
         elif r < 0.12:
